@@ -396,6 +396,12 @@ func (r *lockRule) OnExit(e *Engine, st *State, kind ExitKind) {
 
 // runLocks explores every root of the given packages.
 func runLocks(p *Prog, guards []guardSpec, pkgs map[string]bool) *lockResult {
+	return runLocksOpt(p, guards, pkgs, false)
+}
+
+// runLocksOpt: with resolve, an interface invoke on an in-repo interface is followed
+// into every in-scope method implementing it (each as an alternative continuation).
+func runLocksOpt(p *Prog, guards []guardSpec, pkgs map[string]bool, resolve bool) *lockResult {
 	res := &lockResult{Accesses: map[string]*lockAccess{}, Callbacks: map[string]*lockCallback{}, Edges: map[string]string{}}
 	lr := &lockRule{p: p, guards: map[string]string{}, res: res}
 	for _, g := range guards {
